@@ -527,10 +527,21 @@ var _ utils.PriorityQueue
 //@ requires [fits] len(k) <= 255 && len(v) <= 65535
 //@ modifies nothing
 
+// the limits of the format are checked where metadata enters (request boundary, storage package) and again by save itself:
+// a map that does not fit is reported, never written with a wrapped length
+//@ func (index.Metadata).Validate
+//@ props C08 C12
+//@ pure
+//@ ensures [C08 fits-iff-accepted] isnil(ret) == metaFits(this)
+//@ ensures [err] !isnil(ret) ==> ret == MetadataTooLargeErr
+//@ modifies nothing
+//@ loop 1
+//@ invariant [visited-fit] forall k string :: $visited[k] ==> len(k) <= 255 && len(this[k]) <= 65535
+//@ invariant [visited-sub] forall k string :: $visited[k] ==> has($map, k)
+
 //@ func (index.Metadata).save
 //@ props C08
 //@ trust check lossless
-//@ requires [fits] metaFits(this)
 //@ modifies nothing
 
 //@ func (*index.Metadata).loadKV
@@ -549,7 +560,7 @@ var _ utils.PriorityQueue
 //@ requires [reader] !isnil(r) && this != nil
 //@ modifies map(this)
 
-//@ spec vertexFits(v *hnswVertex) bool = v.level < 2147483648 && metaFits(v.metadata)
+//@ spec vertexFits(v *hnswVertex) bool = v.level < 2147483648
 
 //@ func (*index.Hnsw).Save
 //@ props C08
